@@ -279,12 +279,15 @@ func (f *file) Close() error {
 		return io.EOF
 	}
 
-	if err := f.ioc.UnsetReadWrite(&f.slot); err != nil {
-		return err
-	}
+	// Even if the poller refuses to forget the descriptor (it was closed underneath us), the file is closed: it leaves
+	// the registry and releases its descriptor. The first error is reported.
+	err := f.ioc.UnsetReadWrite(&f.slot)
 	f.ioc.Deregister(&f.slot)
 
-	return syscall.Close(f.slot.Fd)
+	if cerr := syscall.Close(f.slot.Fd); err == nil {
+		err = cerr
+	}
+	return err
 }
 
 func (f *file) Closed() bool {
